@@ -152,6 +152,43 @@ def otsuHistN (hist : List Nat) (edges : List Rat) : Rat :=
   let cs := centres edges
   cs.getD (argmaxN (critListN hist cs)) 0
 
+/-! ## the rescaling step: class means in units of a power of two near the data range
+
+```
+_, exponent = np.frexp(np.amax(np.abs(bin_edges[[0, -1]])))
+centers = np.ldexp(bin_centers, -exponent)
+```
+-/
+
+def absQ (q : Rat) : Rat := if q < 0 then -q else q
+
+/-- `2^k` for an integer `k` -/
+def pow2 (k : Int) : Rat :=
+  if 0 ≤ k then ((2 ^ k.toNat : Nat) : Rat) else 1 / ((2 ^ (-k).toNat : Nat) : Rat)
+
+/-- the exponent `np.frexp` returns: `e` with `2^(e-1) ≤ |q| < 2^e`, and 0 for 0.
+(`⌊log₂ num⌋ − ⌊log₂ den⌋` is `⌊log₂ |q|⌋` or one more: one comparison decides) -/
+def frexpExp (q : Rat) : Int :=
+  if q = 0 then 0 else
+  let e0 : Int := (Nat.log2 q.num.natAbs : Int) - (Nat.log2 q.den : Int)
+  if pow2 e0 ≤ absQ q then e0 + 1 else e0
+
+/-- `np.amax(np.abs(bin_edges[[0, -1]]))`: the larger of the two outer edges in magnitude -/
+def outerMag (edges : List Rat) : Rat :=
+  max (absQ (edges.getD 0 0)) (absQ (edges.getD (edges.length - 1) 0))
+
+/-- `exponent` -/
+def scaleExp (edges : List Rat) : Int := frexpExp (outerMag edges)
+
+/-- `centers = np.ldexp(bin_centers, -exponent)` -/
+def scaledCentres (edges : List Rat) : List Rat :=
+  (centres edges).map (pow2 (-(scaleExp edges)) * ·)
+
+/-- `otsu` from the histogram on, as the code is: the criterion is formed from the rescaled centres, the value
+returned is the (unscaled) centre at the position of its maximum -/
+def otsuHistS (hist : List Nat) (edges : List Rat) : Rat :=
+  (centres edges).getD (argmaxN (critListN hist (scaledCentres edges))) 0
+
 /-! ## runs of empty bins: cuts that separate the same two groups -/
 
 /-- the first cut of the run of cuts that `i` belongs to: cuts `i-1` and `i` separate the same two groups of
@@ -181,7 +218,7 @@ def histogramE (edges : List Rat) (xs : List Rat) : List Nat :=
   countBins (xs.map (binByEdges edges)) (edges.length - 1)
 
 /-- Otsu's threshold of data binned against the given edges -/
-def otsuEdges (edges : List Rat) (xs : List Rat) : Rat := otsuHistN (histogramE edges xs) edges
+def otsuEdges (edges : List Rat) (xs : List Rat) : Rat := otsuHistS (histogramE edges xs) edges
 
 /-- NumPy's bin index from its floating-point estimate `est = trunc(((x - first) / (last - first)) * n)`:
 `indices[indices == n] -= 1`; `indices[x < edges[indices]] -= 1`;
@@ -227,7 +264,7 @@ def histogramN (xs : List (Option Rat)) (n : Nat) : Option (List Nat × List Rat
 /-- `otsu(x, remove_nan)`; `none` = the call raises (`np.histogram` refuses a range that is not finite) -/
 def otsuArr (removeNan : Bool) (xs : List (Option Rat)) (n : Nat := 256) : Option Rat :=
   let x := if removeNan then maskSelect xs (xs.map (fun v => !v.isNone)) else xs
-  (histogramN x n).map (fun he => otsuHistN he.1 he.2)
+  (histogramN x n).map (fun he => otsuHistS he.1 he.2)
 
 /-! ## `np.histogram(x, bins=n)` in double precision -/
 
